@@ -101,7 +101,7 @@ def abstract_tree(rnd, n_min=6, n_max=11, depth=3):
 
 
 def plan(tier, seed):
-    specs = [{"kind": k, "n": n if tier == "quick" else n * 25} for k, n in (("rules", 900), ("rules", 900), ("rules", 900), ("layers", 700), ("layers", 700), ("labels", 600), ("scans", 30), ("scans", 30), ("scans", 30))]
+    specs = [{"kind": k, "n": n if tier == "quick" else n * 25} for k, n in (("rules", 900), ("rules", 900), ("rules", 900), ("layers", 700), ("layers", 700), ("labels", 600), ("scans", 60), ("scans", 60), ("scans", 60))]
     return specs
 
 
